@@ -228,9 +228,13 @@ pub fn rns_oracle(c: &RnsCase) -> Verdict {
     // fastbconv_sk: exact x mod q_i for every integer with |floor(x/B)| < 2^59, negative x included
     {
         let bound = bprod.shl(59);
+        // independent of how the tool sized its auxiliary base: BFV multiplication feeds values up to K n t Q through this
+        // conversion and the sizing rule reserves 32 bits for K n, so every |x| <= 2^30 t Q has to convert exactly
+        let bfv_range = if c.t != 0 { Some(qprod.mul_u64(c.t).shl(30)) } else { None };
         let vals: Vec<BigI> = (0..n).map(|j| {
             let (s, l) = &c.raw[(j + 3) % c.raw.len()];
-            let m = int_below(s.wrapping_add(7 * j as u8), &l[..], &bound, &c.moduli);
+            let bnd = match &bfv_range { Some(r) if j % 2 == 1 => r, _ => &bound };
+            let m = int_below(s.wrapping_add(7 * j as u8), &l[..], bnd, &c.moduli);
             let neg = (l[9] ^ j as u64) & 1 == 1;
             // negative values: floor(x/B) = -ceil(|x|/B) >= -2^59 requires |x| <= 2^59 B, guaranteed by bound (strict)
             BigI::new(neg, m)
